@@ -40,7 +40,7 @@ CHECKS = {
  "C14": ("E1+E4", "model_checking",
    "stateless model checking of the implementation: the real FileCache.Set/Get + internal/file.WriteFile code (os import rewritten to a scheduling shim through go build -overlay) under a cooperative scheduler; DFS over all schedules of file-system steps with preemption bound 2/3 and unbounded with exact global-state pruning, crash choice at every writer step, torn (two-step) writes; porcupine linearizability check of every history against a per-URL register; plus kill injection on every file-system syscall of a real process (strace)",
    "Every interleaving (within the stated bounds: <= 3 threads, <= 2 operations each, <= 2 crashes) of the file-system steps the working tree actually performs is executed on a real tmpfs directory; every Get must be a miss or a complete bundle stored for that URL, every history must be linearizable (a killed Set may or may not have taken effect), a post-mortem reader and lister must see only misses, complete entries and non-key temporary files. E4 kills a real process on entry to each syscall and lets a fresh process read.",
-   "Trusted: kernel rename/unlink/open-inode semantics, engine/sched + engine/osshim (replay determinism self-checked on every run), porcupine. Power loss (unsynced data) and more than 3 participants are outside the bound. The supplementary free-running -race pass of the design is not built.",
+   "Trusted: kernel rename/unlink/open-inode semantics, engine/sched + engine/osshim (replay determinism self-checked on every run), porcupine. Power loss (unsynced data) and more than 3 participants are outside the bound. A supplementary free-running pass (same scenarios as real goroutines in a -race build, real writer processes with a polling reader) validates E1's no-shared-memory assumption; it is a sample, reported under extra.e5_free_running, and never counts towards `exhaustive`.",
    "DESIGN.md section 5 C14, section 3 E1/E4"),
  "C09": ("E3", "model_checking",
    "deviation-bounded exhaustive enumeration over a grammar of valid OCI and blob policy documents: every base document x every single rule-violating edit (one operator per rule) x every pair of edits, validity-preserving edits, plus exhaustive assembly from hand-labelled component alphabets; independent reference validator (iff oracle)",
@@ -114,6 +114,30 @@ CHECKS = {
    "DESIGN.md section 5 C08"),
 }
 
+# Dimensions added after the seeded-defect rounds (DESIGN.md 9.1); appended to the technique text.
+ADDED = {
+ "C01": "reader-shape dimension for blobs (whole, one byte, half, data together with io.EOF, failing part-way), signed empty/prefix blobs, near-miss payload content types, verifier-instance reuse",
+ "C02": "scheme dimension (x509 / signing authority), collaborator-phase histories on one verifier instance (Prior 0..3 incl. a blob verification under an equally named statement), two-store trust values with one store failing to load",
+ "C03": "instance-reuse histories (Prior 1..5), nested/enclosing scopes of the other statement, existing-but-empty store directories, aliasing family (a store returning a slice with spare capacity over a shared array must not be written through)",
+ "C04": "all leaves share key, issuer, validity and serial number; REV-only verification plugin; instance-reuse histories; colon / blank near-miss identities; printed-form identity lists; unknown-OID subjects must never match",
+ "C05": "TI-only verification plugin, instance-reuse histories (validator answered differently before), every exported verifier constructor, leaf with an empty subject",
+ "C06": "token transplanted from the previously verified signature (CopyOfPrior), frozen-clock boundary reads (NotAfter / expiry -1 ns, exactly, +1 ns)",
+ "C07": "each extra descriptor field alone and in pairs, verify-option combinations, short-lived leaf with expiry durations beyond NotAfter",
+ "C08": "ambiguous documents (scope or wildcard in two statements, both orders) through the loader and the verifier constructor; end-to-end verification per selected statement",
+ "C09": "cross-statement family (3-4 statements x {duplicate name, shared / wildcard scope, global flag, skip}); store names with further colons, newline, NUL",
+ "C10": "references pinned by sha384 / sha512 digests against a repository resolving sha256",
+ "C11": "reserved-prefix near misses; signer-annotations family (signer returns annotations colliding with the computed ones)",
+ "C12": "every accepted mutated document is pushed through all four verification entry points; member insertion; integer-labelled critical COSE headers in the configuration matrix",
+ "C13": "reload-after-change histories on one trust-store object; upper/mixed-case types and names with decoys at the normalised path; self-issued leaves signed by another key",
+ "C14": "twin bundles (same issuer, CRL number and dates) and a case-variant URL in the concurrent scenarios",
+ "C15": "twin bundles; frozen-clock boundary reads around NextUpdate; two-instance + external-change histories (Set/Get on two FileCache objects over one root, external delete / truncate / garbage / replace, depth 4-5)",
+ "C16": "names longer than the error-message abbreviation threshold; Install -> Get/Verify histories on one manager; non-executable install sources",
+ "C17": "(structured error, then sleep) x full stderr alphabet x deadline/cancel; overlapping calls on one plugin object (returned replies must not alias pooled buffers); near-miss contract version lists",
+ "C18": "signer-instance histories (honest call, then another key id); near-canonical spellings of the true key spec",
+ "C19": "distinct annotation maps per push with aliasing checks on listed descriptors; fetch A, fetch B, compare A again; equivalent query descriptors; non-UTC / sub-second created annotations",
+ "C20": "sub-directory names sorting before / between / after the top-level files; capitalised metadata names",
+}
+
 NOT_APPLICABLE = [
 ]
 
@@ -121,6 +145,8 @@ def main():
     checks = []
     for pid in sorted(CHECKS):
         eng, cat, tech, text, note, ref = CHECKS[pid]
+        if pid in ADDED:
+            tech += "; further dimensions added after independently seeded defects: " + ADDED[pid]
         checks.append({
             "property_id": pid,
             "quick_cmd": f"./check {pid} quick",
